@@ -367,7 +367,7 @@ MainOnly(lines) == [files |-> <<[dir |-> "src", name |-> "main", lines |-> lines
 
 \* -------- stratum "small": exhaustive, one function-like macro F(x) with a body of <= 3 tokens, every source line of a list
 SmallAlphabet == <<"x", "a", "F", "#", "##", "1", ",">>
-SmallBodies == UNION {[1..n -> {SmallAlphabet[i] : i \in DOMAIN SmallAlphabet}] : n \in 0..3}
+SmallBodies == UNION {[1..n -> {SmallAlphabet[i] : i \in DOMAIN SmallAlphabet}] : n \in 0..atoi(IOEnv.SMALLN)}
 SmallSources == << <<"F", "(", "a", ")">>, <<"F", "(", ")">>, <<"F", "(", "F", "(", "a", ")", ")">>,
                    <<"F", "(", "F", ")", "(", "a", ")">>, <<"F", "(", "a", "b", ")", "F">>, <<"F", "(", "(", "a", ",", "b", ")", ")">>,
                    <<"F", "(", Str1, "+", Str2, ")">>, <<"F", "F", "(", "1", ")", "(", "2", ")">> >>
@@ -398,8 +398,12 @@ BodyItems(params, fun) ==
         <<"(">>, <<")">>, <<"F", "(", "a", ")">>, <<"G", "(", "1", ",", "b", ")">>, <<"V", "(", "a", ",", "b", ")">> >>
   \o (IF fun /\ params # <<>> THEN [i \in DOMAIN params |-> <<"#", params[i]>>] \o << <<"G", "(", params[1], ",", "A", ")">>, <<"F", "(", params[1], ")">> >>
       ELSE <<>>)
-RECURSIVE GenBody(_, _, _, _, _)
-GenBody(c, j, n, params, fun) == IF n = 0 THEN <<>> ELSE Pick(c, j, BodyItems(params, fun)) \o GenBody(c, j + 1, n - 1, params, fun)
+RECURSIVE GenItems(_, _, _, _, _), TrimPaste(_)
+GenItems(c, j, n, params, fun) == IF n = 0 THEN <<>> ELSE Pick(c, j, BodyItems(params, fun)) \o GenItems(c, j + 1, n - 1, params, fun)
+\* a replacement list may not begin or end with ##
+TrimPaste(b) == IF b # <<>> /\ b[1] = "##" THEN TrimPaste(Tail(b))
+                ELSE IF b # <<>> /\ b[Len(b)] = "##" THEN TrimPaste(SubSeq(b, 1, Len(b) - 1)) ELSE b
+GenBody(c, j, n, params, fun) == TrimPaste(GenItems(c, j, n, params, fun))
 
 ArgItems == << <<>>, <<"a">>, <<"b">>, <<"1">>, <<"A">>, <<"B">>, <<"F">>, <<"G">>, <<"a", "+", "b">>, <<"(", "a", ",", "b", ")">>,
                <<"F", "(", "a", ")">>, <<"G", "(", "a", ",", "1", ")">>, <<Str1>>, <<Str2, "a">>, <<"A", "B">>, <<"F", "(", "A", ")">>,
@@ -472,7 +476,8 @@ CondCase(c) ==
 \* -------- stratum "include": seeded; header h in up to three directories with different contents, "h"/<h>, -I order,
 \*          nested include, include guard, forced include
 HeaderIn(dir, tag) == [dir |-> dir, name |-> "h", lines |-> <<[k |-> "ifndef", name |-> "GUARD_" \o tag], Def("GUARD_" \o tag, FALSE, <<>>, FALSE, <<>>),
-                                                           Def("W", FALSE, <<>>, FALSE, <<tag>>), Txt(<<"in", tag, ";">>), [k |-> "endif"]>>]
+                                                           [k |-> "undef", name |-> "W"], Def("W", FALSE, <<>>, FALSE, <<tag>>),
+                                                           Txt(<<"in", tag, ";">>), [k |-> "endif"]>>]
 IncludeCase(c) ==
   LET places == SelectSeq(<<"src", "inc1", "inc2", "src/sub">>, LAMBDA d : Draw(c, CASE d = "src" -> 1 [] d = "inc1" -> 2 [] d = "inc2" -> 3 [] OTHER -> 4) % 2 = 0)
       hs == [i \in DOMAIN places |-> HeaderIn(places[i], CASE places[i] = "src" -> "s" [] places[i] = "inc1" -> "i" [] places[i] = "inc2" -> "j" [] OTHER -> "u")]
@@ -491,17 +496,19 @@ IncludeCase(c) ==
       files == <<main>> \o hs \o <<g, pre>>
   IN [files |-> files, main |-> 1, incs |-> incs, forced |-> IF useForced THEN <<Len(files)>> ELSE <<>>, defs |-> <<>>, undefs |-> <<>>]
 
-CasesOf(stratum, n) ==
-  CASE stratum = "small" -> SmallCases
-    [] stratum = "pair" -> PairCases
-    [] stratum = "expand" -> [c \in 1..n |-> ExpandCase(c)]
-    [] stratum = "cond" -> [c \in 1..n |-> CondCase(c)]
-    [] stratum = "include" -> [c \in 1..n |-> IncludeCase(c)]
+\* all strata; IOEnv.SMALLN bounds the body length of stratum "small", NEXPAND / NCOND / NINCLUDE are the sizes of the seeded strata
+Tagged(cs, name) == [i \in DOMAIN cs |-> [stratum |-> name, case |-> cs[i]]]
+AllCases ==
+  Tagged(SmallCases, "small") \o Tagged(PairCases, "pair")
+  \o Tagged([c \in 1..atoi(IOEnv.NEXPAND) |-> ExpandCase(c)], "expand")
+  \o Tagged([c \in 1..atoi(IOEnv.NCOND) |-> CondCase(c)], "cond")
+  \o Tagged([c \in 1..atoi(IOEnv.NINCLUDE) |-> IncludeCase(c)], "include")
 
 ASSUME Step = "gen" =>
-  LET cs == CasesOf(IOEnv.STRATUM, atoi(IOEnv.N))
-      out == [i \in DOMAIN cs |-> [id |-> i, stratum |-> IOEnv.STRATUM, case |-> cs[i]]]
-  IN ndJsonSerialize(IOEnv.OUT, out) /\ PrintT(<<"GEN", Len(out)>>)
+  LET cs == AllCases
+      \* defined: the semantics defines the output of the case (the others are not run at all)
+      out == [i \in DOMAIN cs |-> [id |-> i, stratum |-> cs[i].stratum, case |-> cs[i].case, defined |-> Defined(ExpectedToks(cs[i].case))]]
+  IN ndJsonSerialize(IOEnv.OUT, out) /\ PrintT(<<"GEN", Len(out)>>) /\ PrintT(<<"DEFINED", Len(SelectSeq(out, LAMBDA o : o.defined))>>)
 
 (***************************************************************************)
 (* Judge.  IOEnv.CASES: gen output; IOEnv.OBS: one line per case, aligned: *)
@@ -533,8 +540,9 @@ ASSUME Step = "judge" =>
       Count(x) == Len(SelectSeq(vs, LAMBDA r : r.v = x))
   IN /\ Len(obs) = Len(cases) /\ \A i \in DOMAIN obs : obs[i].id = cases[i].id
      /\ ndJsonSerialize(IOEnv.OUT, SelectSeq(vs, LAMBDA r : r.v \in {"bad", "model"}))
-     /\ PrintT(<<"JUDGED", Len(vs), "OK", Count("ok"), "BAD", Count("bad"), "MODEL", Count("model"), "UNDEFINED", Count("undefined"),
-                 "NONTRIVIAL", Len(SelectSeq(vs, LAMBDA r : r.nontrivial /\ r.v \in {"ok", "bad"}))>>)
+     /\ PrintT(<<"JUDGED", Len(vs)>>) /\ PrintT(<<"OK", Count("ok")>>) /\ PrintT(<<"BAD", Count("bad")>>)
+     /\ PrintT(<<"MODEL", Count("model")>>) /\ PrintT(<<"UNDEFINED", Count("undefined")>>)
+     /\ PrintT(<<"NONTRIVIAL", Len(SelectSeq(vs, LAMBDA r : r.nontrivial /\ r.v \in {"ok", "bad"}))>>)
 
 (***************************************************************************)
 (* Laws of the definitions (step "laws"), on the exhaustive strata:        *)
